@@ -13,9 +13,21 @@
   and never moves backwards while replaying.  Both full statements are evaluated as oracles on the
   real engine on every generated history (crashes between events and inside events).
 -/
-import Goloop.Proofs.C01Val
+import Goloop.Proofs.C01G1
 namespace Goloop.C02.Props
 open Goloop.C01
+
+/-- **No equivocation while running** (partial for C02: crash/restart not covered, proposals not
+    covered).  For every crash-free event sequence — any interleaving of proposals, block parts, votes
+    of the others (equivocating ones included), timeouts and delayed BlockManager callbacks — two votes
+    the validator signed for the same (height, round, type) are the same vote. -/
+theorem no_equivocation_nocrash_partial (n me : Nat) (evs : List Event) (hn : ∀ e ∈ evs, e.noCrash)
+    (v w : VoteRec)
+    (hv : Msg.vote v ∈ sentOf (run (start { n := n, me := me }) evs).eff)
+    (hw : Msg.vote w ∈ sentOf (run (start { n := n, me := me }) evs).eff)
+    (hh : v.height = w.height) (hr : v.round = w.round) (ht : v.typ = w.typ) : v = w :=
+  pairwise_msgLt_unique (run_core _ evs hn (ev_start_fresh _ rfl rfl)).inc hv hw
+    (by unfold voteKey; rw [hh, hr, ht])
 
 /-- **Restart dominates own votes** (partial for C02 `no_equivocation`).  `W` is whatever survived in
     the round WAL — any list of records, i.e. any crash point and any number of surviving unsynced
